@@ -96,7 +96,10 @@ ProcShape(e) ==
 CwdShape(e) ==
     IF e.op \in {"open_root"} THEN ""                            \* Root::open(user path)
     ELSE IF e.path = "." /\ e.nr \in {"openat2", "renameat2"} THEN ""   \* capability probes
-    ELSE IF StartsWith(e.path, "/proc") /\ e.nr \in {"openat", "open_tree", "readlink", "newfstatat", "statx", "readlinkat", "stat", "lstat"} THEN ""
+    \* the /proc constructors name exactly "/proc"; only *diagnostics* (error formatting: readlink / stat of
+    \* /proc/thread-self/..., never an open) may name something below it by absolute path
+    ELSE IF e.path = "/proc" /\ e.nr \in {"openat", "open_tree"} THEN ""
+    ELSE IF StartsWith(e.path, "/proc/") /\ e.nr \in {"readlink", "newfstatat", "statx", "readlinkat", "stat", "lstat"} THEN ""
     ELSE IF e.nr \in {"openat", "openat2", "open", "newfstatat", "statx", "stat", "lstat", "readlink", "readlinkat", "mkdirat", "mkdir", "mknodat",
                       "unlinkat", "unlink", "rmdir", "renameat", "renameat2", "rename", "linkat", "link", "symlinkat", "symlink",
                       "faccessat", "faccessat2", "access", "open_tree", "chdir", "creat", "mknod", "truncate", "chmod", "chown", "lchown", "statfs"}
